@@ -23,10 +23,6 @@ func R13EventLog(c *Ctx) {
 		c.R.Anchor(rule, "server.(*Teamserver).EventAppend / SendAllPackagesToNewClient / SendEvent / EventBroadcast")
 		return
 	}
-	isEventsList := func(addr ssa.Value) bool {
-		t, f, _, ok := FieldOf(addr)
-		return ok && t == PkgServer+".Teamserver" && f == "EventsList"
-	}
 	// --- EventAppend
 	nStore := 0
 	for _, b := range ea.Blocks {
@@ -77,10 +73,45 @@ func R13EventLog(c *Ctx) {
 					continue
 				}
 				name := FuncShort(fn)
-				if name == "(*server.Teamserver).ListenerRemove" || name == "(*server.Teamserver).EventRemove" {
-					c.R.Ok(rule, name, "t.EventsList = <removal>", c.pos(st.Pos()), "pruning of a removed listener's event", false)
+				if why := eventSplice(st.Val); why == "" {
+					c.R.Ok(rule, name, "t.EventsList = append(t.EventsList[:i], t.EventsList[i+1:]...)", c.pos(st.Pos()), "removal of exactly one retained event, order of the others kept", true)
 				} else {
-					c.R.Bad(rule, name, "t.EventsList = …", c.pos(st.Pos()), "the retained event list is rewritten outside EventAppend/ListenerRemove/EventRemove: operators connecting later miss events")
+					c.R.Bad(rule, name, "t.EventsList = …", c.pos(st.Pos()), "the retained event list is rewritten by something other than the append in EventAppend or a one-element splice ("+why+"): operators connecting later miss, or get twice, events")
+				}
+			}
+		}
+	}
+	// an append onto a prefix of the retained list overwrites the entries behind it in place:
+	// its result must become the list (and nothing else)
+	for _, fn := range c.P.ModuleFuncs(NonYaotl) {
+		for _, b := range fn.Blocks {
+			for _, in := range b.Instrs {
+				call, ok := in.(*ssa.Call)
+				if !ok || CalleeName(call) != "builtin.append" || len(call.Call.Args) == 0 {
+					continue
+				}
+				sl, ok := call.Call.Args[0].(*ssa.Slice)
+				if !ok {
+					continue
+				}
+				ld, ok := sl.X.(*ssa.UnOp)
+				if !ok || !isEventsList(ld.X) {
+					continue
+				}
+				stored := 0
+				other := 0
+				for _, r := range *call.Referrers() {
+					if st, ok := r.(*ssa.Store); ok && isEventsList(st.Addr) && st.Val == ssa.Value(call) {
+						stored++
+					} else if _, isDbg := r.(*ssa.DebugRef); !isDbg {
+						other++
+					}
+				}
+				construct := "append(t.EventsList[:i], …) becomes t.EventsList"
+				if stored == 1 && other == 0 {
+					c.R.Ok(rule, FuncShort(fn), construct, c.pos(call.Pos()), "the in-place splice is assigned back to the list and used nowhere else", true)
+				} else {
+					c.R.Bad(rule, FuncShort(fn), construct, c.pos(call.Pos()), "an append onto a prefix of the retained list shifts the shared backing array but its result is not (only) assigned back to t.EventsList: a retained event is overwritten and the last one duplicated")
 				}
 			}
 		}
@@ -256,4 +287,38 @@ func R13Deadline(c *Ctx) {
 			c.R.Bad(rule, FuncShort(se), construct, c.pos(call.Pos()), "the write has no deadline: an operator whose connection stalls (peer stops reading) blocks this write indefinitely while holding its mutex; EventBroadcast is sequential, so every other operator and the agent request that triggered the broadcast wait behind it")
 		}
 	})
+}
+
+// eventSplice reports "" when v is append(L[:i], L[i+1:]...) over the retained list L.
+func eventSplice(v ssa.Value) string {
+	call, ok := v.(*ssa.Call)
+	if !ok || CalleeName(call) != "builtin.append" || len(call.Call.Args) != 2 {
+		return "not an append"
+	}
+	a, ok1 := call.Call.Args[0].(*ssa.Slice)
+	b, ok2 := call.Call.Args[1].(*ssa.Slice)
+	if !ok1 || !ok2 {
+		return "not a splice of two sub-slices"
+	}
+	la, ok1 := a.X.(*ssa.UnOp)
+	lb, ok2 := b.X.(*ssa.UnOp)
+	if !ok1 || !ok2 || !isEventsList(la.X) || !isEventsList(lb.X) {
+		return "the sub-slices are not taken from the retained list"
+	}
+	if a.Low != nil || a.High == nil || b.High != nil || b.Low == nil {
+		return "not prefix [:i] plus suffix [i+1:]"
+	}
+	bo, ok := b.Low.(*ssa.BinOp)
+	if !ok || bo.Op != token.ADD {
+		return "suffix does not start at i+1"
+	}
+	if n, ok := ConstInt(bo.Y); !ok || n != 1 || bo.X != a.High {
+		return "suffix does not start at i+1 for the prefix's i"
+	}
+	return ""
+}
+
+func isEventsList(addr ssa.Value) bool {
+	t, f, _, ok := FieldOf(addr)
+	return ok && t == PkgServer+".Teamserver" && f == "EventsList"
 }
